@@ -4,7 +4,8 @@ from __future__ import annotations
 
 from harness.check import Component
 
-LEAN_TARGETS = ["Aiortc.Props.C17"]
+LEAN_TARGETS = ["Aiortc.Props.C17", "Aiortc.Props.C17Shift"]
+AUDIT_PROPS = ["C17", "C17Shift"]
 DRIVERS = ["Serial"]
 MANIFEST = {
     "technique": "Lean 4 theorems (omega) over Gen.Serial regenerated from utils.py by AST translation + differential run of the generated defs",
@@ -12,12 +13,43 @@ MANIFEST = {
             "windowed transitivity; TSN successor/predecessor inverse) are Lean theorems for ALL integers in range, about Lean defs that "
             "are re-translated from src/aiortc/utils.py and rtcsctptransport.py on every run, so a changed comparison re-checks every theorem. "
             "The translated defs are also executed against the Python functions on boundary-biased pairs.",
-    "note": "Part 2 of C17 (origin-independence of the stateful components) is carried by the per-component theorems listed in DESIGN.md §2/C17; "
-            "components whose model is not built yet are named there.",
+    "note": "Part 2 of C17 (origin-independence of the stateful components): Props/C17Shift.lean proves shift-equivariance "
+            "`step (σ s) (σ input) = (σ s', σ output)` (σ32 k x = (x+k) % 2^32, σ16 j x = (x+j) % 2^16, any integers k, j; application-level "
+            "outputs literally unchanged) for the SCTP receive path (serialKey/sortByKey/consolidate/_mark_received, add_chunk, pop_messages with "
+            "TSN and SSN shifted independently, prune_chunks, _receive_data_chunk) and, by induction, the whole-run theorem `origin_independent` "
+            "for the pure receiver `Recv.run`; for the SCTP send path (fragmentation/_send, _maybe_abandon, _update_advanced_peer_ack_point, "
+            "_transmit, _t3_expired, and all of _receive_sack_chunk: ack loop, gap blocks, HTNA loop, strike loop, cwnd, T3) and, by induction with the "
+            "range invariant TxOk, whole sender runs `sender_origin_independent` (any interleaving of _send / SACK arrival / _transmit / T3 expiry: "
+            "same DATA chunks, FORWARD-TSNs and timer events); for NackGenerator.add (and whole "
+            "arrival sequences), for the RTP sender (history slot seq % 128, the _run_rtp packet loop, _retransmit) and for the whole JitterBuffer "
+            "(packet array rotated by k mod capacity, timestamps shifted by m: remove / smart_remove / _remove_frame / add and, by induction, whole "
+            "arrival lists `jitter_origin_independent`: same PLI flags, same frames). Still carried by the "
+            "origin-independence ORACLES only (components sctp-origin, rtp-origin): a whole-run theorem for the two-endpoint association "
+            "(Endpoint.lean: the sender and receiver runs are proved separately, not composed through SACK generation `_send_sack`, FORWARD-TSN "
+            "reception and the reconfig request/response sequence numbers), "
+            "StreamStatistics (C18-2 covers it with extended numbers), TimestampMapper; `sorted(missing)` of the NACK list is numeric and therefore "
+            "NOT equivariant (same set, different order across the wrap: retransmission order only).",
     "design_ref": "DESIGN.md §2 C17",
 }
 ASSUMPTIONS = [
     "serial laws are stated for operands in the wire range [0, 2^16) resp. [0, 2^32); antisymmetry excludes pairs exactly half the space apart (as the property does)",
+    "shift-equivariance theorems (Props/C17Shift.lean) require every sequence-number-typed field of the state and of the input to be in the wire range "
+    "(RxOk / InOk / CR / RecvOk / TxOk / QOk / NackOk / HistOk: TSNs in [0, 2^32), SSNs and RTP sequence numbers in [0, 2^16)); the range invariants "
+    "are proved to be preserved by the receive path (markReceived_keeps_range, recvStep_keeps_range) and by NackGenerator.add",
+    "SSN shift j: a stream (receive side) or an outbound stream counter (send side) that does not exist yet is created with SSN 0 in both runs, so "
+    "recvStep_shift / origin_independent / enqueue_shift require `StreamKnown` / `SeqKnown` (the stream exists in the shifted state, or j ≡ 0 mod 2^16, "
+    "or — send side — the message is unordered); origin_independent_init is the j = 0 instance from the handshake state for ANY initial TSN",
+    "send side: the SSN shift acts on ordered chunks only (an unordered chunk carries SSN 0 whatever the counter is); the receive-side theorems shift "
+    "the SSN of every chunk (they hold for arbitrary, also malformed, flag combinations)",
+    "origin_independent is about the pure receiver Recv.run (the data path _receive_data_chunk, tied to the real code by C01's `recv` correspondence), "
+    "sender_origin_independent about the sender driven by a command list (txRun: _send, SACK arrival, _transmit, _t3_expired in any order; SACKs are "
+    "inputs); the two-endpoint association (SACK generation, FORWARD-TSN reception, reconfiguration, the event loop) is covered end-to-end by the "
+    "sctp-origin oracle only",
+    "JitterBuffer theorems require the shape invariant JBOk (capacity > 0 and a divisor of 2^16 — aiortc uses 128 and 16 —, one slot per index, "
+    "stored and arriving timestamps in [0, 2^32)); it holds for a freshly constructed buffer (mk_ok) and is preserved by add (jitter_add_keeps_shape); "
+    "no range hypothesis on the sequence numbers is needed (only distances are computed)",
+    "_retransmit with RTX: the output packet embeds the original sequence number in its payload, so the statement is `the source packet found by the "
+    "history is the shifted source packet, wrapped with the shifted RTX sequence number` (retransmit_shift / retransmit_sends_lookup)",
 ]
 RULE = ("pairs (a,b) / triples drawn boundary-biased (within 4 of 0, half, full, and of each other) and uniformly from both number spaces; "
         "every Gen.Serial function is evaluated by the compiled Lean driver and by the Python function; distinct = distinct (function,args)")
